@@ -491,8 +491,10 @@ def finish(ctx, level="model_checking", rule="", assumptions=None, checker_cmd="
     cov.update(ctx.extra_cov)
     ev = {"property_id": ctx.prop, "tier": ctx.tier, "seed": ctx.seed, "level": level, "coverage": cov,
           "assumptions": assumptions or [], "wall_s": round(wall, 2), "violations": len(new_viol)}
-    os.makedirs(os.path.join(OUTDIR, "evidence"), exist_ok=True)
-    with open(os.path.join(OUTDIR, "evidence", ctx.prop + ".json"), "w") as f:
+    # (checks beyond the listed properties - the embedding API, EXT - report under evidence_ext/)
+    evdir = "evidence" if re.fullmatch(r"C\d\d", ctx.prop) else "evidence_ext"
+    os.makedirs(os.path.join(OUTDIR, evdir), exist_ok=True)
+    with open(os.path.join(OUTDIR, evdir, ctx.prop + ".json"), "w") as f:
         json.dump(ev, f, indent=1)
     if new_viol:
         for (o, exp, note), path in list(zip(new_viol, replay_paths))[:8]:
